@@ -206,6 +206,54 @@ def gen_slave_op(rng, st, protect=()):
     return ['sfull']
 
 
+def gen_master_write(rng, st):
+    """a value written through the master (PATCH /ports/<slave>.<id>/value) to a port of the online slave; the device applies
+    it at once (204), or answers 202 and applies it later, or never.  Nothing else happens 2.5 s before and after: a value-change
+    crossing the answer of the write on the wire is outside C12's scripts (notes/C12.md)"""
+    cands = [i for i, p in st.ports.items() if p['writable'] and p['enabled']]
+    if not cands:
+        return []
+    pid = rng.choice(cands)
+    p = st.ports[pid]
+    v = rand_value(rng, p['type'])
+    r = rng.random()
+    ops = [[2500, 'wait']]
+    after = 2500
+    if r < 0.25:
+        ops.append([0, 'slow', pid, ['never']])
+    elif r < 0.5:
+        ms = rng.choice([200, 1000, 3000])
+        ops.append([0, 'slow', pid, ['later', ms]])
+        after += ms
+        p['value'] = v
+    else:
+        p['value'] = v
+    ops.append([0, 'mv', pid, v])
+    ops.append([after, 'wait'])
+    if r < 0.5:
+        ops.append([0, 'slow', pid, None])
+    return ops
+
+
+def gen_cancellations(rng, job):
+    """twice: a command on the master (PATCH /devices/<name>) that cancels the task awaiting an API call to the slave while the
+    request is in flight, then the opposite command.  Afterwards the slave must be mirrored as before"""
+    ops = []
+    for _ in range(2):
+        if job['mode'] == 'poll':
+            off, on = rng.choice([({'enabled': False}, {'enabled': True}), ({'poll_interval': 0}, {'poll_interval': job['poll']})])
+            ops.append([rng.choice([0, 500]), 'at', {'m': 'GET', 'p': rng.choice(['/ports', '/device'])}, ['mp', off]])
+            ops.append([job['poll'] * 1000 + 5000, 'mp', on])
+            ops.append([3000, 'wait'])
+        else:       # listening: cancel the refresh of a reconnect
+            ops.append([500, 'down', 'refused'])
+            ops.append([30000, 'at', {'m': 'GET', 'p': rng.choice(['/ports', '/device'])}, ['mp', {'enabled': False}]])
+            ops.append([0, 'up'])
+            ops.append([15000, 'mp', {'enabled': True}])
+            ops.append([5000, 'wait'])
+    return ops
+
+
 def gen_e2e(rng, mode=None):
     """a C12 script: device mutations, outages, sync points"""
     mode = mode or rng.choice(['listen', 'listen', 'poll', 'push'])
@@ -217,19 +265,30 @@ def gen_e2e(rng, mode=None):
     ops = job['ops']
     n = rng.randint(4, 28)
     down = False
+    clean = True                 # no outage since the last sync point: the master is online
     burst = rng.random() < 0.4
+    cancels = mode != 'push' and rng.random() < 0.25
     for _ in range(n):
         r = rng.random()
         dt = rng.choice([0, 0, 1, 20, 60, 300, 1500]) if burst else rng.choice([0, 50, 400, 2000, 6000])
         if mode != 'push' and not down and r < 0.08:
             ops.append([dt, 'down', rng.choice(simslave.FAULTS)])
             down = True
+            clean = False
             ops.append([rng.choice([2000, 8000, 30000, 45000, 70000, 130000]), 'wait'])
         elif down and r < 0.25:
             ops.append([dt, 'up'])
             down = False
         elif not down and r < 0.16:
             ops.append([dt, 'sync'])
+            clean = True
+        elif clean and mode != 'push' and r < 0.26:
+            if cancels and rng.random() < 0.5:
+                cancels = False
+                ops.extend(gen_cancellations(rng, job))
+                ops.append([3000, 'sync'])
+            else:
+                ops.extend(gen_master_write(rng, st))
         else:
             op = gen_slave_op(rng, st)
             if op:
@@ -494,8 +553,8 @@ def delivered_values(res):
 
 def order_cases(job, res):
     """[(port id, delivered values, reported values)] for the ports the order statement covers"""
-    if job['mode'] == 'poll' or not res.get('syncs'):
-        return []
+    if job['mode'] == 'poll' or not res.get('syncs') or any(op[1] == 'mp' or (op[1] == 'at' and op[3][0] == 'mp') for op in job['ops']):
+        return []           # (disabling the slave on the master re-creates its ports)
     removed = {op[2] for op in job['ops'] if op[1] == 'srm'}
     last = res['syncs'][-1]
     if not last.get('quiescent'):
